@@ -307,6 +307,9 @@ static std::string nat(const std::string& s)	// canonical decimal (the model kee
 
 int main()
 {
+	// the global logger is not the subject here: library threads that log through it allocate from FastFlow's per-thread allocator, whose
+	// deregistration at thread exit is occasionally reported by ASan (heap-use-after-free in ff/allocator.hpp) - keep it silent
+	FIX8::GlobalLogger::set_levels(FIX8::Logger::Levels(FIX8::Logger::None));
 	vclock::skip_sleeps = true;
 	vclock::set(T0_MS * 1000000LL);
 	char tmpl[] = "/tmp/verif_duo_XXXXXX";
